@@ -4,7 +4,8 @@
    functions), env (what importlib + getattr find for a name), hidden (_HIDDEN_BUILTIN_TYPES' classes),
    site (the module that constructed the TypedDict classes below the encoded type).
      importable cname env hidden c : the class's own (module, qualname) resolves back to class c
-     importable_func fname env f   : get_func_in_module (unwrap, __func__, read-only fget) of f's own name is f
+     importable_func cname fname env f : get_func_in_module (unwrap, __func__ / read-only fget, then the recorded-name
+                                     test of commit 7b578c3) of f's own (module, qualname) is f
      typing_ok env                 : typing.Any / Union / List / ... are what the typing module exports
      inferable t                   : no Tuple[T, ...] / forward reference below t, every Union in typing's
                                      normal form, TypedDict keys distinct (true of every type get_type /
@@ -68,7 +69,7 @@ Theorem trace_roundtrip :
     ok_trace cname fname env hidden tr ->
     exists r d,
       from_trace cname fname site tr = Ok r
-      /\ to_trace env hidden r = Ok d
+      /\ to_trace cname fname env hidden r = Ok d
       /\ r_module r = fst (fname (tr_func tr)) /\ r_qualname r = snd (fname (tr_func tr))
       /\ dt_func d = OFunc (tr_func tr)
       /\ args_corrb (tr_args tr) (dt_args d) = true
@@ -90,9 +91,9 @@ Print Assumptions serialize_traces_keeps.
 
 Example ex_trace_roundtrip :
   ok_trace ex_cn ex_fn ex_ev ex_hd ex_trace
-  /\ importable_func ex_fn ex_ev 1 /\ importable_func ex_fn ex_ev 2 /\ importable_func ex_fn ex_ev 3
-  /\ ~ importable_func ex_fn ex_ev 4          (* a property with a setter is not importable *)
-  /\ exists r d, from_trace ex_cn ex_fn "monkeytype.typing" ex_trace = Ok r /\ to_trace ex_ev ex_hd r = Ok d
+  /\ importable_func ex_cn ex_fn ex_ev 1 /\ importable_func ex_cn ex_fn ex_ev 2 /\ importable_func ex_cn ex_fn ex_ev 3
+  /\ ~ importable_func ex_cn ex_fn ex_ev 4          (* a property with a setter is not importable *)
+  /\ exists r d, from_trace ex_cn ex_fn "monkeytype.typing" ex_trace = Ok r /\ to_trace ex_cn ex_fn ex_ev ex_hd r = Ok d
                  /\ dt_func d = OFunc 1 /\ dt_ret d = Some (TCls cNone) /\ dt_yield d = None /\ r_yield r = None.
 Proof.
   split; [exact ex_trace_ok|]. split; [reflexivity|]. split; [reflexivity|]. split; [reflexivity|].
@@ -145,3 +146,38 @@ Proof.
   split; [exact ex_trace_ok|]. split; [exact ex_trace_perm_ok|]. split; [exact ex_trace_perm_rel|].
   split; [vm_compute; discriminate|]. eexists. split; vm_compute; reflexivity.
 Qed.
+
+(* the repaired last step of get_func_in_module (/repo 7b578c3): a decoded function carries the recorded qualified name;
+   a name that is now bound to ANOTHER function (an alias, the inner function of a non-wrapping decorator) is a stale
+   row — InvalidTypeError — never that other function.  For the traced function's own name the test is vacuous:
+   trace_roundtrip's premise importable_func is exactly "lookup, unwrap and the kind steps lead back to f". *)
+Theorem decoded_function_has_recorded_name :
+  forall (cname : cls -> string * string) (fname : fid -> string * string) (env : string -> string -> lookup)
+         (m q : string) (func : pyobj) (own : string),
+    get_func_in_module env cname fname m q = Ok func ->
+    obj_qualname cname fname func = Ok (Some own) -> own = q.
+Proof. exact EncodeRoundtrip.decoded_function_has_recorded_name. Qed.
+Print Assumptions decoded_function_has_recorded_name.
+
+Theorem rebound_name_rejected :
+  forall (cname : cls -> string * string) (fname : fid -> string * string) (env : string -> string -> lookup)
+         (m q : string) (o : pyobj) (g : fid),
+    env m q = LFound o -> func_of_kind (unwrap o) = Ok (OFunc g) -> snd (fname g) <> q ->
+    get_func_in_module env cname fname m q = Raises InvalidTypeError.
+Proof. exact EncodeRoundtrip.rebound_name_rejected. Qed.
+Print Assumptions rebound_name_rejected.
+
+Theorem importable_func_iff :
+  forall (cname : cls -> string * string) (fname : fid -> string * string) (env : string -> string -> lookup) (f : fid),
+    importable_func cname fname env f <->
+    exists o, env (fst (fname f)) (snd (fname f)) = LFound o /\ func_of_kind (unwrap o) = Ok (OFunc f).
+Proof. exact EncodeRoundtrip.importable_func_iff. Qed.
+Print Assumptions importable_func_iff.
+
+Example ex_rebound_name :
+  ex_ev "pkg.mod" "alias" = LFound (OFunc 0) /\ snd (ex_fn 0) <> "alias"
+  /\ get_func_in_module ex_ev ex_cn ex_fn "pkg.mod" "alias" = Raises InvalidTypeError
+  /\ get_func_in_module ex_ev ex_cn ex_fn "pkg.mod" "shadowed" = Raises InvalidTypeError
+  /\ get_func_in_module ex_ev ex_cn ex_fn "pkg.mod" "wrapped" = Ok (OFunc 1)
+  /\ get_func_in_module ex_ev ex_cn ex_fn "pkg.mod" "plain" = Ok (OFunc 0).
+Proof. repeat split; try reflexivity. vm_compute. discriminate. Qed.
